@@ -349,7 +349,7 @@ def _judge(R, case, wit, sim, mode, dates, T, eps, path, rec, prod_times, target
     if n_jumps == 0:
         R.hit("paths_without_jump")
     if mode == "fixed":
-        if n != prod_times.size or np.max(np.abs(times - prod_times)) > 1e-12 * T:
+        if n != prod_times.size or not (np.max(np.abs(times - prod_times)) <= 1e-12 * T):
             R.violation(f"{tag}-times-not-product-dates", f"times {times.tolist()} vs product dates {prod_times.tolist()}", wit)
             return False
         # jumps per interval: direct -> one jump_increment call per interval; chains -> one sampler call per interval
@@ -386,7 +386,7 @@ def _judge(R, case, wit, sim, mode, dates, T, eps, path, rec, prod_times, target
         run = np.cumsum(flat, axis=0) if n_jumps else flat
         if mode == "jumptimes":
             want_t = np.concatenate([[0.0], all_t, [T]])
-            if n != want_t.size or np.max(np.abs(times - want_t)) > 1e-12 * T:
+            if n != want_t.size or not (np.max(np.abs(times - want_t)) <= 1e-12 * T):
                 R.violation(f"{tag}-times-not-jump-times", f"{n} times for {all_t.size} recorded jump times (+2)", wit)
                 return False
             got = (jf[..., 1:-1].T if dim > 1 else jf[1:-1])
